@@ -491,11 +491,11 @@ def ras(rng, pool, kind, **kwargs):
             return False
         if kwargs.get("dtype") and g["dtype"] != kwargs["dtype"]:
             return False
-        if kwargs.get("named") and not g.get("name"):
+        if named and not g.get("name"):
             return False
         return bool(kwargs.get("big")) == (g["h"] >= 20)
     named = kwargs.pop("named", False)
-    names = [k for k, g in pool.items() if fits(dict(g)) or (named and fits(dict(g)))]
+    names = [k for k, g in pool.items() if fits(g)]
     if names and rng.random() < 0.5:
         return {"ref": rng.choice(names)}
     g = g_raster(rng, kind, **kwargs)
